@@ -41,6 +41,12 @@ def run(ctx: Ctx):
     ctx.guard(r, m)
   from mlmverif.props import c04
   from mlmverif.props import c13
+  ctx.include('R-C05-17', '"all other producers stop and return" for STACKED streams: the queue a stage reads from is linked to the'
+              ' stage\'s result queue whatever created it — piter links and, on a failed set-up, stops the very iterable it'
+              ' hands to piter_fn (R-C13-16), also when that is a caller-supplied upstream queue', c13.r16, min_instances=1)
+  ctx.include('R-C05-18', '"every consumer observes that exception (never a clean end-of-stream)": the multiplexing queue knows how many'
+              ' producers to expect BEFORE any of them runs (max_enqueuer=len(inputs), R-C13-2) — counting them as they'
+              ' start lets the stream end cleanly before a late-started producer has failed', c13.r2, min_instances=1)
   ctx.include('R-C05-14', '"all other producers stop and return": the producers FEEDING the failed queue\'s own producers (the input'
               ' queue of a stacked stream) are stopped through the link — every recorded failure runs the loop over the linked'
               ' queues, and the link method registers its argument before it tests whether the queue is already over'
@@ -979,6 +985,8 @@ from mlmverif.selfcheck import B, OK  # noqa: E402
 
 _F = 'utils/iter_utils.py'
 VARIANTS = [
+    B('multiplex-queue-counts-its-producers-as-they-start', 'utils/iter_utils.py',
+      "      max_enqueuer=len(input_iterators),\n", "", 'R-C05-18'),
     OK('put-waits-with-a-named-timeout', 'utils/iter_utils.py',
        "          if self._enqueue_lock.wait(timeout=self.timeout):\n            continue\n          raise TimeoutError(f'Enqueue timeout",
        "          woken = self._enqueue_lock.wait(timeout=self.timeout)\n          if woken:\n            continue\n          raise TimeoutError(f'Enqueue timeout"),
